@@ -141,7 +141,11 @@ def catalogue():
   # ---- filters
   C["fir"] = S(lambda s: (1 + 2 * z ** -1 - z ** -3)(s), lambda k: k)
   C["iir"] = S(lambda s: ((1 - z ** -1) / (1 - .5 * z ** -1))(s, zero=0), lambda k: k)
-  C["iir-memory"] = S(lambda s: ZFilter([1], [1, -.5, .25])(s, memory=itertools.count()), lambda k: k)
+  # an endless memory iterable: "the first needed elements from this input will be used"; the
+  # tripwire stands far beyond them (a C-level endless iterator could not be interrupted)
+  C["iir-memory"] = S(lambda s: ZFilter([1], [1, -.5, .25])(s, memory=endless_memory()), lambda k: k)
+  C["iir-memory(stream)"] = S(lambda s: ZFilter([1, 1], [1, 0, 0, .25])(s, memory=Stream(endless_memory())), lambda k: k)
+  C["cascade-memory"] = S(lambda s: CascadeFilter(1 - z ** -1, 1 / (1 - .5 * z ** -1))(s, memory=endless_memory()), lambda k: k)
   C["allzero-filter"] = S(lambda s: (0 * z)(s), lambda k: k)
   C["tv-coefficient"] = S(lambda a, b: (Stream(b) * z ** -1 + 1)(a), lambda k: k, nsrc=2)
   C["tv-denominator"] = S(lambda a, b: (1 / (1 - Stream(b) * z ** -1))(a), lambda k: k, nsrc=2)
@@ -258,6 +262,15 @@ def gen_stages(run):
 def needs(stage, k):
   n = stage.need(k)
   return list(n) if isinstance(n, tuple) else [n] * stage.nsrc
+
+
+def endless_memory(limit=64):
+  """Endless filter memory with a tripwire: only the first (order, at most order + 1) items are
+  needed, so a filter call that reads 64 of them is draining the iterable."""
+  for i in itertools.count():
+    if i >= limit:
+      raise Overread("the memory iterable was read past %d items (only the first order+1 are needed)" % limit)
+    yield float(i % 3)
 
 
 def run_chain(names, K, mode="step"):
